@@ -233,3 +233,100 @@ func derivesFromPhi(v ssa.Value, ph *ssa.Phi, depth int) bool {
 	}
 	return false
 }
+
+// ---- E10-A11 timecode offsets are applied symmetrically ----------------------------------------------
+// ReadFromSTL stores timecode − offset into the cue boundaries, where the offset is a GSI value it
+// also hands to the caller in Metadata; the writer puts that Metadata value back into the GSI block
+// (E10-A5). The written timecodes therefore have to be boundary + the same offset, or a file read
+// and written again has every timecode moved by the offset. Rule: the set of offset fields the
+// reader subtracts equals the set the writer adds (compared by GSI field name).
+func canonOffsetName(f string) string {
+	f = strings.ToLower(f)
+	return strings.TrimPrefix(f, "stl")
+}
+
+func offsetTerms(v ssa.Value, sign int, plus, minus strset, depth int) {
+	if depth > 6 {
+		return
+	}
+	switch t := v.(type) {
+	case *ssa.BinOp:
+		switch t.Op.String() {
+		case "+":
+			offsetTerms(t.X, sign, plus, minus, depth+1)
+			offsetTerms(t.Y, sign, plus, minus, depth+1)
+		case "-":
+			offsetTerms(t.X, sign, plus, minus, depth+1)
+			offsetTerms(t.Y, -sign, plus, minus, depth+1)
+		}
+		return
+	case *ssa.Convert:
+		offsetTerms(t.X, sign, plus, minus, depth+1)
+		return
+	case *ssa.ChangeType:
+		offsetTerms(t.X, sign, plus, minus, depth+1)
+		return
+	}
+	if _, f, _ := loadedField(v); f != "" {
+		if sign > 0 {
+			plus.add(canonOffsetName(f))
+		} else {
+			minus.add(canonOffsetName(f))
+		}
+	}
+}
+
+func ruleSTLOffsetSymmetry(p *Prog, l *Ledger, tier string) {
+	const rule = "E10.A11-stl-offset-symmetry"
+	rd := anchor(p, l, rule, "ReadFromSTL")
+	wr := anchor(p, l, rule, "ttiBlock.bytes")
+	if rd == nil || wr == nil {
+		return
+	}
+	n := 0
+	for _, pair := range [][2]string{{"StartAt", "timecodeIn"}, {"EndAt", "timecodeOut"}} {
+		key := rule + "|" + pair[0]
+		// reader
+		rPlus, rMinus := strset{}, strset{}
+		vals := fieldStores(rd.Blocks, "Item")[pair[0]]
+		if len(vals) == 0 {
+			l.Undecide(rule, "ReadFromSTL", key, "", "no store to Item."+pair[0]+" in ReadFromSTL")
+			continue
+		}
+		for _, v := range vals {
+			offsetTerms(v, 1, rPlus, rMinus, 0)
+		}
+		// writer: the duration formatted for this timecode
+		wPlus, wMinus := strset{}, strset{}
+		found := false
+		for _, c := range callsTo(wr, "formatDurationSTLBytes") {
+			tp, tm := strset{}, strset{}
+			offsetTerms(c.Call.Args[0], 1, tp, tm, 0)
+			if tp[strings.ToLower(pair[1])] {
+				found = true
+				for k := range tp {
+					wPlus.add(k)
+				}
+				for k := range tm {
+					wMinus.add(k)
+				}
+			}
+		}
+		if !found {
+			l.Undecide(rule, "ttiBlock.bytes", key, "", "the call formatting "+pair[1]+" was not found in ttiBlock.bytes")
+			continue
+		}
+		n++
+		delete(rPlus, strings.ToLower(pair[1]))
+		delete(wPlus, strings.ToLower(pair[1]))
+		// reader subtracts X ⇔ writer adds X; reader adds X ⇔ writer subtracts X
+		a, b := strings.Join(rMinus.sorted(), ","), strings.Join(wPlus.sorted(), ",")
+		c, d := strings.Join(rPlus.sorted(), ","), strings.Join(wMinus.sorted(), ",")
+		if a == b && c == d {
+			l.Prove(rule, "ReadFromSTL", key, "", fmt.Sprintf("reader: %s = %s − {%s}; writer: %s + {%s}", pair[0], pair[1], a, pair[1], b))
+		} else {
+			l.Fail(rule, "ttiBlock.bytes", key, blockPos(p, wr.Blocks[0]), fmt.Sprintf("ReadFromSTL computes Item.%s as %s minus {%s} plus {%s}, but the writer emits %s plus {%s} minus {%s}: the offset is kept in the metadata and written back to the GSI block, so a file read and written again has this timecode moved by the offset", pair[0], pair[1], a, c, pair[1], b, d))
+		}
+	}
+	l.Min(rule, n, 2)
+}
